@@ -101,9 +101,41 @@ def object_history(rng):
     return ([], body, [])
 
 
+def chain_history(rng):
+    """以L（a：…）、（b：…）、（c：…）: the calls of a chain run one after the other, each on the result of the one before, and the
+    arguments of a call are evaluated when its turn comes — they see what the earlier calls of the chain did, and their own
+    effects (a displaying identity method) happen between the calls"""
+    body = [Func("Fq", ["Nq"], [Display(Str("q"), Var("Nq")), Return(Var("Nq"))]),
+            Decl([(False, ["L"], Arr([Num(rng.randrange(0, 9)) for _ in range(rng.randrange(0, 3))]))])]
+
+    def arg():
+        k = rng.randrange(5)
+        if k == 0:
+            return Member(Var("L"), "长度")
+        if k == 1:
+            return Arith("+", Member(Var("L"), "长度"), Num(rng.randrange(10, 99)))
+        if k == 2:
+            return Call("Fq", [Member(Var("L"), "长度")])
+        if k == 3:
+            return Call("Fq", [Num(rng.randrange(100, 200))])
+        return Arith("*", Member(Var("L"), "末项"), Num(2)) if rng.random() < 0.5 else Num(rng.randrange(0, 9))
+    n = 0
+    for _ in range(rng.randrange(1, 4)):
+        chain = [(rng.choice(["后增", "后增", "前增"]), [arg()]) for _ in range(rng.randrange(2, 5))]
+        y = None
+        if rng.random() < 0.3:
+            n += 1
+            y = "R%d" % n
+        body.append(ExprS(Method(Var("L"), chain, y)))
+        body.append(Display(Var("L")) if y is None else Display(Var("L"), Var(y)))
+    body.append(Return(Var("L")))
+    return ([], body, [])
+
+
 def run(chk, replay=None):
     extra = witnesses()
     if replay is None:
         extra += [(object_history(chk.rng), None, "object-history") for _ in range(40 if chk.tier == "quick" else 500)]
+        extra += [(chain_history(chk.rng), None, "chain-history") for _ in range(25 if chk.tier == "quick" else 300)]
     semprop.run_property(chk, "C08", "c08", PROFILES, 120, 1500, replay=replay, extra_programs=extra,
                          what="method call / object semantics differ from the documented behaviour")
